@@ -118,10 +118,11 @@ prop('C07',
      units=['verus:store_ops', 'verus:api_ops'],
      obligations=['store.append.rejects_invalid', 'store.append.reject_no_trace', 'store.append.registers', 'store.append.frame_as_given',
                   'store.append.no_broadcast_on_err', 'store.remove.unregisters', 'store.new.*',
-                  'store_ops.Store::append.body', 'store_ops.new_reload_loop.body', 'api.import.pre.P4_registers_context'],
+                  'store_ops.Store::append.body', 'store_ops.new_reload_loop.body', 'api.import.pre.P4_registers_context',
+                  'store.insert_frame.registers_stored_context', 'store_ops.Store::insert_frame.body'],
      trusted=STORE_TRUST,
      explanation='Postconditions of the real functions over the ghost registry set.',
-     not_decided='reopen after a crash (fjall recovery); import of registration frames bypasses the registry (C20 finding)')
+     not_decided='reopen after a crash (fjall recovery); an imported xs.context frame in a NON-zero context is stored but (rightly) not registered: accepting it at all is the C20 finding P3')
 
 prop('C08',
      level='proof',
